@@ -154,7 +154,10 @@ def run(prog: Program, chk: Check):
                 if f.qual not in ("Parser.handle_message_def", "Parser.handle_struct", "Parser.handle_signal"):
                     S.bad(fkey(f, n), where(f, n), f"{f.qual} registers a definition outside the validated handlers")
 
-    alignment_induction(prog, chk)
+    try:
+        alignment_induction(prog, chk)
+    except AnalysisError as e:
+        chk.defer_error(f"C11-N could not interpret check_alignment: {e}")
 
     # ---- L (thorough, supplementary): natural layout of every shipped definition -----------------------------------------
     if chk.tier == "thorough":
